@@ -140,6 +140,11 @@ class C02(Check):
         return [p for p in paths if p in self.M]
 
     def cases(self):
+        base = self._base_cases()
+        # a sample of them also under `python -O` (assert statements compiled away)
+        return base + [{"kind": "optimized", "sub": c} for c in base[::max(1, len(base) // 6)][:6]]
+
+    def _base_cases(self):
         cs = [{"kind": "nonobject"}]
         for name in self.templates:
             paths = self.paths_for(name)
@@ -179,6 +184,9 @@ class C02(Check):
         return doc
 
     def run_case(self, case, stats):
+        if case.get("kind") == "optimized":
+            from ..framework import optimized
+            return optimized(self, case, stats)
         vs = []
         if case["kind"] == "one":
             self.eval_doc(json.loads(case["doc"]), case["v1"], case["pending"], ("replay",), stats, vs,
